@@ -1,6 +1,6 @@
 (* C09 -- reported locations point at the right source text.  Statements only; proofs in Syntax/ParserProofs.v. *)
 From Coq Require Import List NArith ZArith Bool.
-From SliceV Require Import Syntax.Tokens Syntax.Lexer Syntax.Parser Syntax.ParserProofs.
+From SliceV Require Import Syntax.Tokens Syntax.Lexer Syntax.Parser Syntax.ParserProofs Syntax.ParserProofs2.
 Import ListNotations.
 
 (* `written t pts` holds exactly when pts spell t AND every location inside t (the reference itself, nested references, scoped
@@ -10,6 +10,14 @@ Theorem C09_type_reference_spans_exact : forall t pts, written t pts -> forall f
   (length pts < fuel)%nat -> ~ next_is TkQuestion rest -> ~ next_is TkDColon rest ->
   p_typeref fuel (mkps (pts ++ rest) le last dg) = POk_ t (mkps rest le (last_end pts last) dg).
 Proof. exact typeref_written. Qed.
+(* the same for a whole file (module, struct definitions, fields with tags, attributes with arguments, attributed types): the
+   relations `written_file`, `written_struct`, `written_member`, `written_attr`, `writtenA` fix the location of every element
+   -- module, definition (from `compact`/`struct` to the name), field (from the tag or the name to the end of its type), tag value,
+   identifier, attribute (directive .. closing parenthesis), type reference -- to the extent of its own tokens, and the parser
+   returns exactly that file for arbitrary token locations *)
+Theorem C09_file_spans_exact : forall f pts, written_file f pts -> forall start,
+  p_file (S (S (length pts))) (mkps pts None start []) = POk_ f (mkps [] None (last_end pts start) []).
+Proof. exact file_written. Qed.
 (* rows and columns count characters from the start location: a line feed starts a new row at column 1 (CR is one more
    column on its line), any other character -- ASCII, tab or multi-byte -- advances the column by exactly one *)
 Theorem C09_columns_count_characters : forall l s, forallb (fun c => negb (c =? 10)%N) s = true ->
